@@ -34,6 +34,36 @@ def normal_forms():
     r = normalise_tree(n)
     assert r["k"] == "if" and r.get("case_of_case") and r["cond"]["k"] == "local", "case of case"
     assert r["then"]["k"] == "block" and r["then"]["stmts"][0]["k"] == "let" and r["then"]["stmts"][0]["init"]["v"] == 1
+    # while let -> loop / if let / break
+    wl = {"k": "while", "lid": 3, "cond": {"k": "letexpr", "pat": {"k": "pwild"}, "init": loc(1)}, "body": {"k": "block", "stmts": [], "expr": None}}
+    r = normalise_tree(wl)
+    assert r["k"] == "loop" and r["body"]["expr"]["k"] == "if" and r["body"]["expr"]["else"]["stmts"][0]["e"]["k"] == "break"
+    # match (a, b) { (true, _) => 1, (false, true) => 2, (false, false) => 3 }  ->  if a {1} else {if b {2} else {3}}
+    bl = lambda i: {"k": "local", "name": "b%d" % i, "id": i, "ty": "bool"}
+    pt = lambda *vs: {"k": "ptuple", "ps": [{"k": "pwild"} if v is None else {"k": "plit", "lk": "bool", "v": v} for v in vs]}
+    mb = {"k": "match", "src": "Normal", "e": {"k": "tup", "es": [bl(1), bl(2)]}, "arms": [
+        {"pat": pt(True, None), "body": L(1)}, {"pat": pt(False, True), "body": L(2)}, {"pat": pt(False, False), "body": L(3)}]}
+    r = normalise_tree(mb)
+    assert r["k"] == "if" and r["cond"]["id"] == 1 and r["then"]["expr"]["v"] == 1 and r["else"]["expr"]["cond"]["id"] == 2
+    # o.map(|x| x) -> if let Some(x) = o { Some(x) } else { None }
+    mp = {"k": "mcall", "callee": "std::option::Option::<T>::map", "name": "map", "recv": loc(4), "args": [
+        {"k": "closure", "params": [{"k": "pbind", "name": "x", "id": 7, "mode": "BindingMode(No, Not)"}], "body": loc(7)}]}
+    r = normalise_tree(mp)
+    assert r["k"] == "if" and r["cond"]["k"] == "letexpr" and r.get("from_combinator") == "map"
+    # it.for_each(|x| ..) -> for x in it
+    fe = {"k": "mcall", "callee": "std::iter::Iterator::for_each", "name": "for_each", "recv": loc(4), "args": [
+        {"k": "closure", "params": [{"k": "pbind", "name": "x", "id": 8, "mode": "BindingMode(No, Not)"}], "body": loc(8)}]}
+    assert normalise_tree(fe)["k"] == "for"
+    # x % 4 -> x & 3 on unsigned
+    pw = {"k": "bin", "op": "%", "ty": "u64", "l": loc(1), "r": {"k": "lit", "lk": "int", "v": 4}}
+    r = normalise_tree(pw)
+    assert r["op"] == "&" and r["r"]["v"] == 3
+    # match x { 0 => 1, w => w } -> if x == 0 { 1 } else { let w = x; w }
+    mi = {"k": "match", "src": "Normal", "e": {"k": "local", "name": "x", "id": 1, "ty": "usize"}, "arms": [
+        {"pat": {"k": "plit", "lk": "int", "v": 0}, "body": L(1)},
+        {"pat": {"k": "pbind", "name": "w", "id": 9, "mode": "BindingMode(No, Not)"}, "body": loc(9)}]}
+    r = normalise_tree(mi)
+    assert r["k"] == "if" and r["cond"]["op"] == "==" and r["else"]["stmts"][0]["k"] == "let"
     # write!(w, ..) == w.write_all(format!(..).as_bytes())
     w = {"k": "mcall", "callee": "std::io::Write::write_fmt", "name": "write_fmt", "recv": loc(2), "args": [loc(3)]}
     r = normalise_tree(w)
